@@ -211,7 +211,10 @@ class NormalRunner:
             expect = {"marginal": lambda: [np.array(idx, dtype=np.int64) if step.get("as_array") else list(idx)],
                       "regress": lambda: [np.array(idx[1:], dtype=np.int64) if step.get("as_array") else list(idx[1:])],
                       "mse": lambda: [np.array(idx[1:], dtype=int)]}
-            res = must(lib(call, self.model), "%s(%s)" % (op, idx))
+            o_res = lib(call, self.model)
+            if not o_res.ok and step.get("negative"):
+                return        # negative indices are numpy semantics, not part of the contract: a rejection is not judged
+            res = must(o_res, "%s(%s)" % (op, idx))
             if op in expect and _snap(args_store) != _snap(expect[op]()):
                 raise Violation("argument_modified", "%s modified the index argument it was given: %r (was %r)" % (op, args_store, expect[op]()))
             if op == "conditional" and len(idx) >= 2:
